@@ -19,7 +19,11 @@ func HarnessRangeServe() {
 	full := []byte("0123456789")
 	size := int64(len(full))
 	lm := symTime()
-	h := hdr("Cache-Control", "max-age=60", "Etag", "\"e1\"", "Last-Modified", vTimeString(lm), "Content-Type", "text/plain")
+	etag := "\"e1\""
+	if symChoice(2) == 1 {
+		etag = "W/\"e1\"" // the origin's validator is a weak one
+	}
+	h := hdr("Cache-Control", "max-age=60", "Etag", etag, "Last-Modified", vTimeString(lm), "Content-Type", "text/plain")
 	e.o.script = []originResp{{status: 200, header: h, body: full}}
 	vClockFreeze(true)
 	c0 := e.plain(newReq("GET", "o.test", "/big", "", nil))
@@ -36,9 +40,20 @@ func HarnessRangeServe() {
 	ifRange := symChoice(4)
 	switch ifRange {
 	case 1:
-		rh["If-Range"] = []string{"\"e1\""}
+		rh["If-Range"] = []string{etag}
 	case 2:
-		rh["If-Range"] = []string{"\"other\""}
+		// any other entity tag: 4 or 6 free bytes ("e1" and W/"e1" are among them); with
+		// tagfree=1 any length 1..7
+		var other string
+		if vParam("tagfree", 0) == 1 {
+			other = symStringN(7)
+		} else if symChoice(2) == 0 {
+			other = symString(4)
+		} else {
+			other = symString(6)
+		}
+		vAssume(other != etag && len(other) > 0)
+		rh["If-Range"] = []string{other}
 	case 3:
 		rh["If-Range"] = []string{vTimeString(symTime())}
 	}
